@@ -132,7 +132,7 @@ def check_property(spec: PropertySpec, tier="quick", seed=0, src_root="/repo/src
         reports.append(r)
         if getattr(r, "fault", None):
             faults.append(f"{t}: {r.fault}")
-    schedule = solver.DEFAULT_SCHEDULE if tier == "quick" else (("z3", 10), ("cvc5", 20), ("z3", 60), ("cvc5", 90))
+    schedule = (("z3", 5), ("cvc5", 10), ("z3", 20)) if tier == "quick" else (("z3", 10), ("cvc5", 20), ("z3", 60), ("cvc5", 90))
     prove.discharge(E, reports, schedule=schedule, both=(tier == "thorough"))
     all_obs = [o for r in reports for o in r.obligations]
     proof_obs = [o for o in all_obs if o.expect == "unsat"]
